@@ -20,6 +20,3 @@ static void vp_body(struct vp_in* pin, size_t count, const u32* T, size_t nT, u3
 	VP_ASSERT(exact <= nT, "harness: threshold table covers mod");
 	VP_ASSERT(b == exact, "beltFMTCalcB(mod, count) == ceil(count*log2(mod)/64) (least b with mod^count <= 2^(64b))");
 }
-
-/* beltFMT_keep exposes b for n1 = (count+1)/2 */
-void h_keep_dummy(void) { }
